@@ -21,16 +21,17 @@ import random
 import typing as t
 
 import c01
+import c03_agg
 import exprs as X
 import vlib
 from vlib import Ctx, bag, plain
 
 ID = "C03"
 LEVEL = "proof"
-MODULES = ["SqlframeModel.Codec.C03", "SqlframeModel.Codec.C01", "SqlframeModel.Props.C03", "SqlframeModel.Props.C03Text"]
-GEN = ["Actions", "Operations", "Methods", "Clauses"]
-SOURCES = ["SqlframeModel/Props/C03.lean", "SqlframeModel/Props/C03Text.lean", "SqlframeModel/Lemmas/C03.lean", "SqlframeModel/Impl/C03.lean",
-           "SqlframeModel/Impl/DataFrame.lean", "SqlframeModel/Props/C01.lean"]
+MODULES = ["SqlframeModel.Codec.C01", "SqlframeModel.Props.C03", "SqlframeModel.Props.C03Text", "SqlframeModel.Props.C03Agg", "SqlframeModel.Codec.C03"]  # the last one imports all
+GEN = ["Actions", "Operations", "Methods", "Clauses", "C03Agg"]
+SOURCES = ["SqlframeModel/Props/C03.lean", "SqlframeModel/Props/C03Text.lean", "SqlframeModel/Props/C03Agg.lean", "SqlframeModel/Lemmas/C03.lean", "SqlframeModel/Impl/C03.lean",
+           "SqlframeModel/Impl/C03Agg.lean", "SqlframeModel/Lemmas/C03Agg.lean", "SqlframeModel/Impl/DataFrame.lean", "SqlframeModel/Props/C01.lean"]
 FLAGS = list(itertools.product([True, False], [True, False], [True, False]))  # optimize, quote_identifiers, pretty
 
 # ------------------------------------------------------------------------------------------------
@@ -44,6 +45,8 @@ def gen_tree(rng: random.Random, depth: int) -> tuple:
     c = rng.random()
     if c < 0.16:
         return (rng.choice(["agg", "distinct", "ordlimit", "respell", "window", "window2"]), gen_tree(rng, depth - 1))
+    if c < 0.22:  # joins without an equi-key: the optimizer decides alone what may be merged into them
+        return ("xjoin", gen_tree(rng, depth - 1), gen_tree(rng, depth - 1), rng.choice(["cross", "cond", "cond_left"]))
     if c < 0.4:
         return ("wrap", gen_tree(rng, depth - 1))
     if c < 0.75:
@@ -147,6 +150,13 @@ def real(tr: tuple):
         return real(tr[1]).select("k", F.col("v") + 1)
     L = real(tr[1])
     R = real(tr[2])
+    if k == "xjoin":  # crossJoin + filter / join on a condition that is not an equality of keys
+        R3 = R.select(F.col("k").alias("k2"), F.col("v").alias("w"))
+        if tr[3] == "cross":
+            return L.crossJoin(R3).where(F.col("v") > F.col("w")).select("k", "v")
+        if tr[3] == "cond":
+            return L.join(R3, F.col("v") >= F.col("w")).select("k", "v")
+        return L.join(R3, (F.col("k") == F.col("k2")) & (F.col("v") >= F.col("w")), "left").select("k", F.col("w").alias("v"))
     if k == "join":
         R2 = R.select(F.col("k"), F.col("v").alias("w"))
         return L.join(R2, on="k", how=tr[3]).select("k", "v")
@@ -195,6 +205,23 @@ def closed_unique(names: t.List[str], refs: t.List[t.List[str]], open_: t.List[s
     return problems
 
 
+def engine_artefact(conn: t.Any, df: t.Any, text: str, canon_rows: t.Callable[[t.Any], t.Any]) -> bool:
+    """rows of the text and of collect() differ: is it the *engine's own* optimizer?  DuckDB 1.2.2 evaluates e.g.
+    `SELECT * FROM t WHERE x = y AND x > y AND y < 3` to the row (1, 1) (its filter combiner; with `PRAGMA
+    disable_optimizer` it returns nothing).  The engine with its optimizer disabled is the reference: if text and collect()
+    agree there, the text means what collect() executes and the difference is not sqlframe's (counted, not reported)."""
+    try:
+        conn.execute("PRAGMA disable_optimizer")
+        return canon_rows(df.collect()) == canon_rows(conn.execute(text).fetchall())
+    except Exception:  # noqa
+        return False
+    finally:
+        try:
+            conn.execute("PRAGMA enable_optimizer")
+        except Exception:  # noqa
+            pass
+
+
 def run_texts(df, ordered: bool) -> t.Tuple[t.List[str], t.Dict[str, t.Any]]:
     """every flag combination: never fails, self-contained, and returns collect()'s rows and names"""
     s, _ = bases()
@@ -234,7 +261,11 @@ def run_texts(df, ordered: bool) -> t.Tuple[t.List[str], t.Dict[str, t.Any]]:
         if got_cols != cols and "*" not in cols:
             fails.append(f"[{tag}] column names {got_cols} differ from collect()'s {cols}")
         if (got != C) if ordered else (bag(got) != bag(C)):
-            fails.append(f"[{tag}] rows differ from collect(): {got[:6]} vs {C[:6]}")
+            canon_rows = (lambda rs: [[plain(v) for v in r] for r in rs]) if ordered else (lambda rs: bag([[plain(v) for v in r] for r in rs]))
+            if engine_artefact(conn, df, text, canon_rows):
+                info["engine_artefacts"] = info.get("engine_artefacts", 0) + 1
+            else:
+                fails.append(f"[{tag}] rows differ from collect(): {got[:6]} vs {C[:6]}")
     info["collect"] = C
     return fails, info
 
@@ -246,7 +277,7 @@ def run_struct(tr: tuple) -> dict:
         bases()[0].catalog._schema = MappingSchema()
         df = real(tr)
         fails, info = run_texts(df, False)
-        return {"fails": fails, "chain": info.get("chain"), "uncollectable": info.get("uncollectable")}
+        return {"fails": fails, "chain": info.get("chain"), "uncollectable": info.get("uncollectable"), "engine_artefacts": info.get("engine_artefacts", 0)}
     except Exception as e:  # noqa
         return {"fails": [f"building the program raised {type(e).__name__}: {str(e)[:200]}"], "chain": None}
 
@@ -331,14 +362,14 @@ def run_chain(c: dict) -> dict:
         df = make_source(c)
         for s in c["steps"]:
             df = apply_spelled(df, s, F) if c.get("spell") else c01.apply_step(df, s, F)
-        fails, _ = run_texts(df, c01.order_checked(c))
+        fails, tinfo = run_texts(df, c01.order_checked(c))
         shape = None
         if c.get("source", "createDataFrame") == "createDataFrame" and c["rows"]:
             try:
                 shape = c01.shape_of_sql(df.sql(dialect="duckdb", optimize=False))
             except Exception as e:  # noqa
                 shape = f"unreadable: {type(e).__name__}"
-        return {"fails": fails, "shape": shape}
+        return {"fails": fails, "shape": shape, "engine_artefacts": tinfo.get("engine_artefacts", 0)}
     except Exception as e:  # noqa
         return {"fails": [f"building the program raised {type(e).__name__}: {str(e)[:200]}"]}
 
@@ -370,7 +401,7 @@ def bases_of(tr: tuple) -> t.Set[int]:
 
 
 def has_common_base(tr: tuple) -> bool:
-    if tr[0] in ("join", "setop") and (bases_of(tr[1]) & bases_of(tr[2])):
+    if tr[0] in ("join", "setop", "xjoin") and (bases_of(tr[1]) & bases_of(tr[2])):
         return True
     return any(has_common_base(x) for x in tr[1:] if isinstance(x, tuple))
 
@@ -386,17 +417,17 @@ def has_semi_anti(tr: tuple) -> bool:
 
 
 def has_outer_join(tr: tuple) -> bool:
-    if tr[0] == "join" and tr[3] in ("left", "right", "full"):
+    if (tr[0] == "join" and tr[3] in ("left", "right", "full")) or (tr[0] == "xjoin" and tr[3] == "cond_left"):
         return True
     return any(has_outer_join(x) for x in tr[1:] if isinstance(x, tuple))
 
 
 def nested_outer(tr: tuple) -> bool:
     """a join / set operation one of whose operands contains an outer join, or an outer join over a join"""
-    if tr[0] in ("join", "setop"):
+    if tr[0] in ("join", "setop", "xjoin"):
         if has_outer_join(tr[1]) or has_outer_join(tr[2]):
             return True
-        if tr[0] == "join" and tr[3] != "inner" and any(x[0] in ("join", "setop") or (x[0] == "wrap" and contains_join(x)) for x in (tr[1], tr[2])):
+        if tr[0] in ("join", "xjoin") and tr[3] not in ("inner", "cross", "cond") and any(x[0] in ("join", "setop", "xjoin") or (x[0] == "wrap" and contains_join(x)) for x in (tr[1], tr[2])):
             return True
     return any(nested_outer(x) for x in tr[1:] if isinstance(x, tuple))
 
@@ -409,7 +440,7 @@ def has_distinct_setop(tr: tuple) -> bool:
 
 
 def contains_join(tr: tuple) -> bool:
-    return tr[0] in ("join", "setop") or any(contains_join(x) for x in tr[1:] if isinstance(x, tuple))
+    return tr[0] in ("join", "setop", "xjoin") or any(contains_join(x) for x in tr[1:] if isinstance(x, tuple))
 
 
 def tree_reductions(tr: tuple) -> t.List[tuple]:
@@ -630,6 +661,12 @@ def run(ctx: Ctx) -> None:
     vlib.prove(ctx, MODULES, GEN, idx["theorems"], SOURCES)
     known = {e["id"]: e for e in vlib.known_findings(ID)}
 
+    # (d) aggregate pipelines: every route to an aggregate x every consumer the optimizer would merge it with (runs first:
+    #     it forks its own workers before this process touches the engine)
+    vlib.log(f"C03: proved / audited after {ctx.elapsed():.1f}s")
+    agg_viol, agg_cov = c03_agg.run_family(ctx, known)
+    vlib.log(f"C03: aggregate pipelines done after {ctx.elapsed():.1f}s ({agg_cov['aggregate_programs']} programs)")
+
     # (a) structural stream
     trees: t.List[tuple] = [
         ("base", 0),
@@ -654,28 +691,36 @@ def run(ctx: Ctx) -> None:
         ("join", ("base", 0), ("base", 1), "left_anti"),
         ("join", ("base", 0), ("base", 1), "right"),
         ("join", ("wrap", ("base", 1)), ("distinct", ("base", 0)), "left_anti"),
+        ("xjoin", ("base", 0), ("agg", ("base", 1)), "cross"),
+        ("xjoin", ("wrap", ("base", 0)), ("ordlimit", ("base", 1)), "cond"),
+        ("xjoin", ("distinct", ("base", 0)), ("base", 1), "cond_left"),
     ]
     lean_cases = []
     for i, tr in enumerate(trees):
         nm = Namer()
         p, _ = to_prog(tr if is_structural(tr) else ("base", 0), nm)
         lean_cases.append({"case": i, "prog": p})
-    outs = vlib.run_driver("C03", lean_cases)
     impls = vlib.parallel_map(run_struct, trees)
+    outs: t.List[t.Optional[dict]]
+    try:
+        outs = vlib.run_driver("C03", lean_cases)  # type: ignore
+    except Exception as e:  # noqa  (the model no longer builds: the executed comparison still looks for a failing input)
+        ctx.broken.append(f"the CTE-chain model could not be run: {type(e).__name__}: {str(e)[:300]}")
+        outs = [None] * len(trees)
     struct_mismatch = []
-    viol: t.List[dict] = []
+    viol: t.List[dict] = list(agg_viol)
     hyp_fail = 0
     uncollectable = 0
     for tr, o, im in zip(trees, outs, impls):
-        if "err" in o:
+        if o is not None and "err" in o:
             raise RuntimeError(f"driver rejected a program: {o}")
-        if not o["ok"]:
+        if o is not None and not o["ok"]:
             hyp_fail += 1
-        mc = canon(o["names"], o["refs"], o["open"])
+        mc = canon(o["names"], o["refs"], o["open"]) if o is not None else None
         if im.get("uncollectable"):
             uncollectable += 1
             continue
-        if is_structural(tr) and (im["chain"] is None or mc != im["chain"]):
+        if o is not None and is_structural(tr) and (im["chain"] is None or mc != im["chain"]):
             struct_mismatch.append({"program": show_tree(tr), "tree": tr, "model": mc, "implementation": im["chain"]})
         if im["fails"]:
             kf = classify_tree(tr, im["fails"], known)
@@ -684,6 +729,7 @@ def run(ctx: Ctx) -> None:
                     vlib.report_known(ctx, known[h], known[h]["summary"])
             else:
                 viol.append({"program": show_tree(tr), "tree": tr, "failures": im["fails"], "family": "structural"})
+    vlib.log(f"C03: structural stream done after {ctx.elapsed():.1f}s ({len(trees)} trees)")
     if hyp_fail:
         ctx.broken.append(f"harness bug: the synthetic names violate Prog.OK in {hyp_fail} programs")
     if struct_mismatch:
@@ -733,8 +779,13 @@ def run(ctx: Ctx) -> None:
                     c["spell"] = True
                 chains.append(c)
     cres = vlib.parallel_map(run_chain, chains)
+    vlib.log(f"C03: chains executed after {ctx.elapsed():.1f}s ({len(chains)} chains)")
     # (c) the unoptimized statement, block by block, against the model's chain of frozen CTEs (C03_text_eval is about that chain)
-    mouts = vlib.run_driver("C01", [c01.case_to_lean(i, c) for i, c in enumerate(chains)])
+    try:
+        mouts = vlib.run_driver("C01", [c01.case_to_lean(i, c) for i, c in enumerate(chains)])
+    except Exception as e:  # noqa
+        ctx.broken.append(f"the DataFrame model could not be run: {type(e).__name__}: {str(e)[:300]}")
+        mouts = [{} for _ in chains]
     shape_bad = []
     shape_ok = 0
     for c, r, o in zip(chains, cres, mouts):
@@ -764,6 +815,8 @@ def run(ctx: Ctx) -> None:
             else:
                 viol.append({"program": c01.show_case(c), "case": c, "failures": r["fails"], "family": "chain"})
 
+    vlib.log(f"C03: chains classified after {ctx.elapsed():.1f}s")
+
     def tup(x):
         return tuple(tup(y) if isinstance(y, list) else y for y in x)
 
@@ -771,6 +824,8 @@ def run(ctx: Ctx) -> None:
         w = e.get("witness") or {}
         if w.get("case"):
             r = run_chain(w["case"])
+        elif w.get("agg_case"):
+            r = c03_agg.run_case(w["agg_case"])
         elif w.get("tree"):
             r = run_struct(tup(w["tree"]))
         else:
@@ -780,6 +835,8 @@ def run(ctx: Ctx) -> None:
 
     reported = 0
     for v in viol[:3]:
+        if v["family"] == "aggregate":
+            v = c03_agg.shrink_violation(v, known)
         if v["family"] == "chain":
             c = c01.shrink.__wrapped__(v["case"]) if hasattr(c01.shrink, "__wrapped__") else v["case"]
             # local shrink: drop steps / rows while it still fails
@@ -800,7 +857,7 @@ def run(ctx: Ctx) -> None:
 
     ctx.cov.update(
         {
-            "evaluations": (len(trees) + len(chains)) * len(FLAGS),
+            "evaluations": (len(trees) + len(chains) + agg_cov["aggregate_programs"]) * len(FLAGS),
             "distinct_nontrivial": len({json.dumps(t_) for t_ in trees if t_[0] != "base"}) + len({vlib.digest([c["steps"], c["rows"]]) for c in chains if c["steps"]}),
             "rule": "structural programs = random trees (depth <= 3) of select-wraps / joins / set operations over two base DataFrames (shared subtrees give common ancestors and clashing CTE names); "
             "semantic programs = random C01 chains; each rendered under all 8 (optimize, quote_identifiers, pretty) combinations, parsed back, checked closed/unique, executed and compared with collect(); "
@@ -811,15 +868,18 @@ def run(ctx: Ctx) -> None:
             "chain_programs": len(chains),
             "statement_shapes_validated_against_impl": shape_ok,
             "uncollectable_programs_skipped": uncollectable,
+            "engine_optimizer_artefacts": sum(r.get("engine_artefacts", 0) for r in impls) + sum(r.get("engine_artefacts", 0) for r in cres) + agg_cov.get("aggregate_engine_artefacts", 0),
             "renderings_failing": sum(len(v["failures"]) for v in viol),
             "optimizer_known_findings": len(ctx.known_hits),
             "samples": [show_tree(trees[i]) for i in (3, 4, 6)] + [c01.show_case(chains[0])[:300] if chains else ""],
         }
     )
+    ctx.cov.update(agg_cov)
     ctx.assumptions += [
         "optimize=True: sqlglot's optimizer is third party; equivalence of its output is validated per program by execution on DuckDB, not proved",
         "the CRC content hash is injective on the CTE bodies of one statement (checked on every generated statement: names unique)",
         "sqlglot parses back the text it rendered (used to extract the CTE chain)",
+        "DuckDB with `PRAGMA disable_optimizer` is the reference engine: when a text and collect() return different rows but agree with the engine's optimizer disabled, the difference is the engine's (DuckDB 1.2.2: `x = y AND x > y AND y < 3` returns the row (1, 1)); such renderings are counted as engine_optimizer_artefacts, not reported",
     ]
 
 
@@ -827,6 +887,9 @@ def replay(ctx: Ctx, rp: dict) -> None:
     if rp.get("case"):
         r = run_chain(rp["case"])
         print(json.dumps({"program": c01.show_case(rp["case"]), "failures": r["fails"]}, indent=1))
+    elif rp.get("agg_case"):
+        r = c03_agg.run_case(rp["agg_case"])
+        print(json.dumps({"program": c03_agg.show(rp["agg_case"]), "failures": r["fails"]}, indent=1))
     elif rp.get("tree"):
         tr = json.loads(json.dumps(rp["tree"]))
 
